@@ -1138,3 +1138,83 @@ mod security_tests {
         assert_eq!(packet.payload, original_payload);
     }
 }
+
+/// Verification-only accessors (`--cfg rustrtc_verif`): read-only snapshots of the per-SSRC
+/// context tables and an explicit clock input (back-dating `last_used`), so the harness can
+/// drive the idle-eviction rule without sleeping.
+#[cfg(rustrtc_verif)]
+impl SrtpSession {
+    /// `(ssrc, rollover_counter, last_sequence, rtcp_index)` of every receive context, sorted.
+    pub fn verif_rx_snapshot(&self) -> Vec<(u32, u32, Option<u16>, u32)> {
+        Self::verif_snapshot(&self.rx_contexts)
+    }
+
+    /// Same for the transmit contexts.
+    pub fn verif_tx_snapshot(&self) -> Vec<(u32, u32, Option<u16>, u32)> {
+        Self::verif_snapshot(&self.tx_contexts)
+    }
+
+    fn verif_snapshot(map: &HashMap<u32, SrtpContext>) -> Vec<(u32, u32, Option<u16>, u32)> {
+        let mut out: Vec<_> = map
+            .values()
+            .map(|c| (c.ssrc, c.rollover_counter, c.last_sequence, c.rtcp_index))
+            .collect();
+        out.sort();
+        out
+    }
+
+    /// Let `by` of time pass for every context (moves `last_used` into the past).
+    pub fn verif_advance_clock(&mut self, by: std::time::Duration) {
+        for c in self.rx_contexts.values_mut().chain(self.tx_contexts.values_mut()) {
+            c.last_used -= by;
+        }
+    }
+}
+
+#[cfg(rustrtc_verif)]
+impl SrtpContext {
+    /// `(rollover_counter, last_sequence, rtcp_index)`.
+    pub fn verif_state(&self) -> (u32, Option<u16>, u32) {
+        (self.rollover_counter, self.last_sequence, self.rtcp_index)
+    }
+
+    /// Set the rollover state directly (exhaustive runs of the estimate at chosen `roc`).
+    pub fn verif_set_state(&mut self, roc: u32, last_sequence: Option<u16>, rtcp_index: u32) {
+        self.rollover_counter = roc;
+        self.last_sequence = last_sequence;
+        self.rtcp_index = rtcp_index;
+    }
+
+    /// The private rollover estimate for `sequence` in the current state.
+    pub fn verif_estimate_roc(&self, sequence: u16) -> u32 {
+        self.estimate_roc(sequence)
+    }
+
+    /// The private state update.
+    pub fn verif_update(&mut self, sequence: u16, roc: u32) {
+        self.update(sequence, roc)
+    }
+
+    /// Derived session keys: `[rtp cipher, rtp auth, rtp salt, rtcp cipher, rtcp auth, rtcp salt]`.
+    pub fn verif_session_keys(&self) -> [Vec<u8>; 6] {
+        [
+            self.rtp_keys.cipher_key.clone(),
+            self.rtp_keys.auth_key.clone(),
+            self.rtp_keys.salt.clone(),
+            self.rtcp_keys.cipher_key.clone(),
+            self.rtcp_keys.auth_key.clone(),
+            self.rtcp_keys.salt.clone(),
+        ]
+    }
+
+    /// The private AES-CM IV / GCM nonce constructions.
+    pub fn verif_build_iv(&self, sequence: u16, roc: u32) -> [u8; 16] {
+        self.build_iv(sequence, roc)
+    }
+    pub fn verif_build_gcm_nonce(&self, sequence: u16, roc: u32) -> [u8; 12] {
+        self.build_gcm_nonce(sequence, roc)
+    }
+    pub fn verif_build_gcm_rtcp_nonce(&self, index: u32) -> [u8; 12] {
+        self.build_gcm_rtcp_nonce(index)
+    }
+}
